@@ -1,6 +1,6 @@
 """C01 -- signals and setters never reach a recycled PID or a process group."""
 from props import _proc_common as PC
-from props._proc_common import coq_struct, coq_term, impl_run  # noqa: F401  (interface of pv.core)
+from props._proc_common import coq_struct, coq_term, impl_run, impl_setup  # noqa: F401  (interface of pv.core)
 
 ID = "C01"
 COQ_REQUIRE = PC.COQ_REQUIRE
@@ -9,7 +9,7 @@ RULE = ("histories of kernel events (spawn/exit->zombie/reap/PID reuse by a live
         "calls over PIDs {0,1,2,3,7,2^31-1} (Process() also on -1,-7,5,2^31,2^64), start ticks from 21 values (bases 0..2^40, 10^12, each +0/+1/+2) with PID reuse at adjacent ticks (p=0.6), process names with 0-3 blanks/parentheses/15 bytes, thread-count changes, incl. adjacent "
         "ticks, drawn from a weighted grammar with motifs 'process ends, 0-2 queries (is_running/ppid/process_iter/"
         "create_time/boot_time/==/hash), PID reused or not, then a signal or setter on the old object' and 'clock step + "
-        "boot_time() + second object'; two-step calls whose window holds kernel events applied by the fake kernel at the moment psutil issues its system call (reap+respawn = the inherent TOCTOU, exit, reap, thread, clock, nothing); psutil.Popen objects whose child is already gone; guarded calls inside (nested) oneshot() blocks before/after exit+reuse, as_dict(); 30% of objects are psutil.Popen over a stub subprocess.Popen; every signal method and setter with valid and invalid arguments. Class = most specific "
+        "boot_time() + second object'; PID 7 is the PID psutil was imported under (os.getpid() patched during import: forked-child situation); wait() caching the exit code then PID reuse; process_iter() generators suspended between PIDs while other events happen; two-step calls whose window holds kernel events applied by the fake kernel at the moment psutil issues its system call (reap+respawn = the inherent TOCTOU, exit, reap, thread, clock, nothing); psutil.Popen objects whose child is already gone; guarded calls inside (nested) oneshot() blocks before/after exit+reuse, as_dict(); 30% of objects are psutil.Popen over a stub subprocess.Popen; every signal method and setter with valid and invalid arguments. Class = most specific "
         "feature reached (set-reused-after-gone, set-reused, pid0, set-gone, set-zombie, ...). Non-trivial = some signal/"
         "setter/query on an object was executed; distinct = distinct canonical history.")
 TRUSTED = PC.TRUSTED
@@ -75,7 +75,7 @@ MANIFEST = {
             "(identity probe, kernel events in the window, system call): with no event in the window it equals the atomic call; with a "
             "reap+spawn in the window delivery to the new owner is a proved counterexample (inherent TOCTOU), while 'at most one system "
             "call, naming exactly the object's PID and value' holds for every window. Objects include psutil.Popen with a child "
-            "already gone. process_iter()'s b70d950 branch is proved unreachable with atomic calls. The model (coq/Proc/Model.v) is tied to the "
+            "already gone. process_iter()'s b70d950 branch is proved unreachable when no generator is resumed between other calls, and reached (witness) with a suspended generator. The model (coq/Proc/Model.v) is tied to the "
             "code by running both on generated histories over a fake /proc with recorded system calls.",
     "note": "Trusted: Coq kernel + vm_compute; hand-written model coq/Proc/Model.v (tied by the correspondence run only); ghost "
             "incarnations and demanded answers in coq/Proc/Spec.v; harness (fake /proc, recorders for os.kill/setpriority/ioprio_set/"
